@@ -24,7 +24,8 @@ from harness import core, values as V, diffcommon as D
 THEOREM_FILE = "Properties/C10.v"
 COQCHK = ["Properties.C10"]
 RULE = ("pairs of nested values (depth <= 3, width <= 4; atoms None/bool/int/half-integer float/str/bytes incl. quotes, backslash, "
-        "newline, tab, DEL, Latin-1 and non-UTF-8 bytes; list/tuple/dict/set/frozenset): 45% edit scripts of 1-3 edits, 25% atom "
+        "newline, tab, DEL, Latin-1 and non-UTF-8 bytes; list/tuple/dict/set/frozenset): 30% edit scripts of 1-3 edits, 15% dict-rooted "
+        "values with 1-4 key add/delete/rekey/replace edits, 25% atom "
         "lists related by insert/delete/replace/move/dup planted under 0-2 levels, 15% independent values, 15% set-heavy; "
         "x {ordered, ignore_order, ignore_order+report_repetition} x verbose_level {0,1,2} x view {text,tree} "
         "(ordered mode also x threshold_to_diff_deeper {0.33, 0}). Non-trivial = non-empty tree; distinct by (t1, t2, mode, verbose).")
@@ -553,11 +554,19 @@ def gen_pairs(ctx, n):
     out = []
     for _ in range(n):
         r = rng.random()
-        if r < 0.45:
+        if r < 0.3:
             t1 = gen_val(rng, 3, 4, kinds="LTDSA" if rng.random() < 0.8 else "LTDSFA")
             vals, kinds = V.edit_script(rng, t1, rng.randint(1, 3), strings=STRS)
             t2 = vals[-1]
             ctx.count("gen:edit_script")
+        elif r < 0.45:
+            t1 = gen_val(rng, 3, 4, kinds="DDDLTA")
+            if not isinstance(t1, dict):
+                t1 = {"k": t1, 1: gen_val(rng, 2, 3, kinds="DLA"), None: gen_atom(rng)}
+            vals, kinds = V.edit_script(rng, t1, rng.randint(1, 4), strings=STRS,
+                                        kinds=["dict_add", "dict_add", "dict_del", "dict_del", "dict_rekey", "replace_atom", "replace_sub", "type_change"])
+            t2 = vals[-1]
+            ctx.count("gen:dict_edit_script")
         elif r < 0.7:
             x, y, _k = V.gen_atom_list_pair(rng, maxlen=8)
             t1, t2 = V.plant(rng, rng.choice([0, 0, 1, 2]), (x, y))
@@ -594,12 +603,21 @@ def one_pair(ctx, t1, t2, cases, corr=True, iocases=None):
         if mode == "ordered" and corr:
             if D.in_model_guard(a, b) and repr_in_model(a, b):
                 for verbose, (dt, dr) in runs.items():
-                    cases.append(c10_case(a, b, thr, verbose, dt, dr))
+                    try:
+                        cases.append(c10_case(a, b, thr, verbose, dt, dr))
+                    except Exception as e:
+                        ctx.break_("correspondence", {"name": "c10", "case": {"t1": repr(a), "t2": repr(b), "thr": thr, "verbose": verbose},
+                                                      "error": "could not observe the presentations: " + repr(e)})
             else:
                 ctx.count("outside_model_guard")
         if mode == "ignore_order" and corr and iocases is not None and D.in_model_guard(a, b) and repr_in_model(a, b) and not non_utf8_bytes(a, b):
             for verbose, (dt, dr) in runs.items():
-                c = io_case(a, b, verbose, dt, dr)
+                try:
+                    c = io_case(a, b, verbose, dt, dr)
+                except Exception as e:
+                    ctx.break_("correspondence", {"name": "c10io", "case": {"t1": repr(a), "t2": repr(b), "verbose": verbose},
+                                                  "error": "could not observe the presentations: " + repr(e)})
+                    continue
                 if c is None:
                     ctx.count("io_case_skipped")
                 else:
@@ -622,12 +640,19 @@ def replay_witnesses(ctx):
             ctx.break_("correspondence", {"name": "C10-to_json-non-utf8-bytes witness", "detail": "C10_json_total_refuted's witness no longer raises on the implementation; model out of date", "impl": s})
         except UnicodeDecodeError:
             pass
-    for t1, t2 in (({"a": {1, 2}}, {"a": {1, 3}}), ([b"\xff"], [b"a"])):
+    if "C10-repetition-t2-index" in open_keys:
+        for t1, t2, kind in (([3, 1, 2], [4, 4, 3], "values_changed"), ([4, 4, 1], [1, 4, 2], "repetition_change")):
+            d = DeepDiff(t1, t2, ignore_order=True, report_repetition=True, view="tree")
+            lv = list(d[kind])[0]
+            rel = lv.up.t2_child_rel or lv.up.t1_child_rel
+            if lv.up.t2[rel.param] == lv.t2:
+                ctx.break_("correspondence", {"name": "C10-repetition-t2-index witness", "detail": "C10_io_repetition_leaf_refuted's witness no longer fails on the implementation; model out of date", "impl": repr(d)})
+    for t1, t2 in (({"a": {1, 2}}, {"a": {1, 3}}), ([b"\xff"], [b"a"]), ([3, 1, 2], [4, 4, 3]), ([4, 4, 1], [1, 4, 2])):
         one_pair(ctx, t1, t2, [], corr=False)
 
 
 def run(ctx):
-    pairs = gen_pairs(ctx, 2400 if ctx.thorough else 330)
+    pairs = gen_pairs(ctx, 8000 if ctx.thorough else 600)
     cases, iocases = [], []
     for t1, t2 in pairs:
         one_pair(ctx, t1, t2, cases, iocases=iocases)
@@ -636,7 +661,7 @@ def run(ctx):
     ctx.coq_cases("c10", HDR, cases, shard=60, label="all_presentations_ordered")
     ctx.coq_cases("c10io", IO_HDR, iocases, shard=60, label="all_presentations_ignore_order")
     vcases = []
-    for _ in range(1500 if ctx.thorough else 300):
+    for _ in range(3000 if ctx.thorough else 400):
         v = gen_val(ctx.rng, 3, 3)
         if repr_in_model(v):
             vcases.append(value_case(v))
